@@ -18,6 +18,7 @@ DEADLINES = [0.0, 0.25, 0.5, 1.0, 2.0, 5.0, 1000.0, 1000.0, 1000.0]
 STRAT_VALUES = [0.0, G, 0.25, 0.5, 1.0, 3.0, "nan", "inf", "-inf", -1.0, -0.0, 1e9]
 STRAT_VALUES_HUGE = STRAT_VALUES + ["hugeint", 7, 10**30]
 OVERSHOOT = [0.0, 0.0, 0.0, G, 0.25, 1.0]
+EXC_FAMILIES = ("plain", "runtime", "os", "frozen", "empty", "group")
 SPECIALS_ALL = ["abort", "cancel", "kbd", "sysexit", "nested_exh", "nested_open", "genexit", "base"]
 
 
@@ -63,6 +64,8 @@ def rand_outcome(rng, *, p_ok=0.2, p_exc=0.45, p_special=0.0, specials=("abort",
         name = rng.choice(list(specials))
         if name in ("nested_exh", "nested_open"):
             return ["sp", name, rng.choice(classes + [None]) if name == "nested_exh" else rng.choice(classes)]
+        if name in ("cancel", "kbd", "sysexit") and rng.random() < 0.3:
+            name += "_exc"  # an application class deriving from the cancellation type AND from Exception
         return ["sp", name]
     r = rng.random()
     hint = rng.choice([None, None, 0.5, 3.0]) if ra else None
@@ -222,7 +225,15 @@ def rand_scenario(
         "ctx_decoy": rng.random() < 0.35,  # context-manager entries only: a second context object alive at the same time
         "calls": calls,
         "fault": None,
+        # what kind of object the operation's errors are (drawn last: the scenarios generated before this existed keep their shape)
+        "exc_family": rand_exc_family(rng),
     }
+
+
+def rand_exc_family(rng):
+    if rng.random() < 0.6:
+        return ["plain"]
+    return [rng.choice(EXC_FAMILIES) for _ in range(rng.choice([1, 1, 2, 3]))]
 
 
 def rand_breaker(rng):
